@@ -581,6 +581,8 @@ func clientHelloGrammar(p *core.Prog, r *core.Run, rule string) {
 	bt := normTokens(builderTokens(p, m.marshal, bld, skip, 0))
 	wantB := "u8:=22 u16:clientHello.LegacyVersion p16{ " + clientHelloBody + " }"
 	r.Check(rule, "marshal:grammar", bt == wantB, p.Pos(m.marshal.Pos()), "marshal(false) emits the TLS record: %s (RFC 8446 4.1.2 / 5.1 shape with bindings: %s)", bt, wantB)
+	// (the record authenticated and forwarded is that encoding, untouched)
+	returnsEncoding(p, r, rule, m.marshal)
 	// parser: root cursor = receiver of the first read
 	var root ssa.Value
 	var first token.Pos
